@@ -571,7 +571,8 @@ def tree_features(prog):
         if k == "var":
             return e[2] == "Nat" or e[1] in nat_vars
         if k == "bin":
-            return e[4] == "Nat"
+            # Nat is closed under + * // % in Erg, whatever type the generator asked of the node (`0 % 7` is a Nat)
+            return e[4] == "Nat" or (e[1] in ("+", "*", "//", "%") and static_nat(e[2]) and static_nat(e[3]))
         if k == "if":
             return static_nat(e[2]) and static_nat(e[3])
         if k == "len":
